@@ -111,7 +111,9 @@ def snap_effect(e, doc):
             return ['map', v.sampler.id, v.sampler in e.params, v.texcoord]
         if isinstance(v, (tuple, list)):
             return ['color'] + [float(x) for x in v]
-        return ['float', float(v)]
+        if isinstance(v, (int, float, numpy.floating, numpy.integer)):
+            return ['float', float(v)]
+        return ['not-a-value', type(v).__name__, getattr(v, 'id', None)]      # whatever else the loader put there
     out = dict(id=e.id, shadingtype=e.shadingtype, double_sided=bool(e.double_sided), opaque_mode=e.opaque_mode,
                params=params, bumpmap=val(e.bumpmap))
     for prop in e.supported:
